@@ -149,7 +149,10 @@ def _unmarshal_method_frame(frame_data: bytes) -> base.Frame:
     :raises: pamqp.exceptions.UnmarshalingException
 
     """
-    bytes_used, method_index = decode.long_int(frame_data[0:4])
+    try:
+        bytes_used, method_index = decode.long_int(frame_data[0:4])
+    except struct.error as error:
+        raise exceptions.UnmarshalingException('Unknown', error)
     try:
         method = commands.INDEX_MAPPING[method_index]()
     except KeyError:
@@ -157,7 +160,7 @@ def _unmarshal_method_frame(frame_data: bytes) -> base.Frame:
             'Unknown', 'Unknown method index: {}'.format(str(method_index)))
     try:
         method.unmarshal(frame_data[bytes_used:])
-    except struct.error as error:
+    except (struct.error, ValueError, OverflowError) as error:
         raise exceptions.UnmarshalingException(method, error)
     return method
 
@@ -171,7 +174,7 @@ def _unmarshal_header_frame(frame_data: bytes) -> header.ContentHeader:
     content_header = header.ContentHeader()
     try:
         content_header.unmarshal(frame_data)
-    except struct.error as error:
+    except (struct.error, ValueError, OverflowError) as error:
         raise exceptions.UnmarshalingException('ContentHeader', error)
     return content_header
 
